@@ -83,14 +83,25 @@ def abstract_key(st, labels):
 # concretisation
 # ---------------------------------------------------------------------------
 
-def sentinel(M, fam, sid):
+_PAD = 'abcdefghijklmnopqrstuvwxyz0123456789'
+# paddings of the peer sentinel's text field: frames below and beyond 128 and 256 bytes (the obfuscation
+# key array wraps around there) and a few KiB
+PADS = (0, 0, 0, 40, 100, 120, 140, 250, 270, 700)
+
+
+def sentinel(M, fam, sid, pad=0):
+    """The Sentinel(id) of a reader family.  The peer sentinel carries a text of chosen length, so
+    sentinels come in several frame sizes."""
     if fam == 'server':
         return M.ParentInactivityTimeout.Response(sid)
     if fam == 'peer':
-        return M.PeerPlaceInQueueReply.Request('sentinel.mp3', sid)
+        text = (_PAD * (pad // len(_PAD) + 1))[sid % 7:][:pad]
+        return M.PeerPlaceInQueueReply.Request('sentinel-%d-%s.mp3' % (sid, text), sid)
     return M.DistributedChildDepth.Request(sid)
 
 
+SENT_FAM = {'ParentInactivityTimeout.Response': 'server', 'PeerPlaceInQueueReply.Request': 'peer',
+            'DistributedChildDepth.Request': 'dist'}
 SENT_FIELD = {'ParentInactivityTimeout.Response': 'timeout', 'PeerPlaceInQueueReply.Request': 'place',
               'DistributedChildDepth.Request': 'depth'}
 
@@ -109,6 +120,12 @@ class Concretiser:
     def _next_sid(self):
         self.sid += 1
         return self.sid
+
+    def new_sentinel(self, fam):
+        """-> (sid, pad, message)"""
+        sid = self._next_sid()
+        pad = self.rng.choice(PADS) if fam == 'peer' else 0
+        return sid, pad, sentinel(self.M, fam, sid, pad)
 
     def _hostile_body(self, fam, want, units):
         """units: abstract body length (0 empty, 1 one byte, >= 2 anything longer)."""
@@ -144,19 +161,19 @@ class Concretiser:
             rec = dict(k=k, id=0, cat='', cls='', obf=obf_now, au=au)
             if k == 'I':
                 typ = 'D' if want == 'init:D' else 'P' if want == 'init:P' else r.choice(['P', 'D'])
-                msg = M.PeerInit.Request(r.choice(['peer1', 'peer2', 'üser']), typ, r.choice([0, 0, 5]))
+                user = r.choice(['peer1', 'peer2', 'üser']) + 'u' * r.choice((0, 0, 0, 110, 130, 300))
+                msg = M.PeerInit.Request(user, typ, r.choice([0, 0, 5]))
                 body = msg.serialize()[4:]
-                rec.update(id=i, cat='init', cls='PeerInit.Request', typ=typ)
+                rec.update(id=i, cat='init', cls='PeerInit.Request', typ=typ, user=user)
                 nxt_fam, nxt_obf = ('peer', obf) if typ == 'P' else ('dist', False)
             elif k == 'S':
                 if demote:
                     body = sentinel(M, fam, self._next_sid()).serialize()[4:]
                     rec.update(k='H', cat='after_hostile_init', cls='')
                 else:
-                    sid = self._next_sid()
-                    msg = sentinel(M, fam, sid)
+                    sid, pad, msg = self.new_sentinel(fam)
                     body = msg.serialize()[4:]
-                    rec.update(id=sid, cat='sentinel', cls=type(msg).__qualname__)
+                    rec.update(id=sid, cat='sentinel', cls=type(msg).__qualname__, pad=pad)
             elif k == 'H':
                 if fam == 'init':
                     body, cat, cls = self._hostile_init(want, bu)
@@ -266,6 +283,9 @@ class Concretiser:
         total = sum(f['h'] + f['a'] for f in sc['frames'])
         pos, stimuli = 0, []
         mode = r.choice(['bytes', 'chunks', 'whole', 'frames'])
+        if mode == 'bytes' and total > 1200:
+            mode = 'chunks'
+
         ends, acc = [], 0
         for f in sc['frames']:
             acc += f['h'] + f['a']
@@ -492,7 +512,10 @@ class Runner:
                             keep.append(er)
                             network.register_response_future(er)
 
-            sids = {f['id'] for f in sc['frames'] if f['k'] == 'S'}
+            # what each Sentinel(id) looked like when it was sent: delivered means delivered as sent
+            sids = {f['id']: sentinel(M, SENT_FAM[f['cls']], f['id'], f.get('pad', 0))
+                    for f in sc['frames'] if f['k'] == 'S' and f.get('cls') in SENT_FAM}
+            init_frame = sc['frames'][0] if kind == 'accept' and sc['frames'] and sc['frames'][0]['k'] == 'I' else None
             st = dict(closing=False, peer_init=False, last_cls='', n_unhandled=len(loop.unhandled), msgs=0,
                       recording=True, spinning=False, in_tick=False)
             self._st = st
@@ -533,7 +556,10 @@ class Runner:
                     st['last_cls'] = cls
                     st['msgs'] += 1
                     self.stats['msg_classes'][cls] = self.stats['msg_classes'].get(cls, 0) + 1
-                    events.append(dict(ev='msg', cls=cls, sid=v if v in sids else 0))
+                    sid = 0
+                    if v in sids:
+                        sid = v if m == sids[v] else -1          # -1: a sentinel with altered content
+                    events.append(dict(ev='msg', cls=cls, sid=sid))
 
             def on_msg_end(event):
                 # registered with the lowest priority: every other listener has been called
@@ -557,7 +583,10 @@ class Runner:
                 if st['recording'] and event.connection is conn:
                     st['peer_init'] = True
                     t = conn.connection_type
-                    events.append(dict(ev='peer_init', typ=t if t in ('P', 'F') else 'D', raw=str(t)[:8]))
+                    typ = t if t in ('P', 'F') else 'D'
+                    if init_frame is not None and (conn.username != init_frame.get('user') or t != init_frame.get('typ')):
+                        typ = 'ALTERED'              # a valid PeerInit was taken for something else
+                    events.append(dict(ev='peer_init', typ=typ, raw=str(t)[:8]))
                     watch_reader()
 
             keep.extend([on_msg, on_msg_end, on_state, on_peer_init])
@@ -716,8 +745,12 @@ def make_fingerprint(scenarios):
             if rd is not None:
                 return f"C02:reader-stopped-silently:{kind}:{rd.get('after') or '-'}:{rd.get('how')}"
             return f"C02:frame-not-delivered-or-connection-not-closed:{kind}"
+        if name == 'msg' and ev.get('sid') == -1:
+            return f"C02:sentinel-content-altered:{kind}:{ev.get('cls')}"
         if name == 'msg':
             return f"C02:unexpected-delivery:{kind}:{ev.get('cls')}"
+        if name == 'peer_init' and ev.get('typ') == 'ALTERED':
+            return f"C02:init-content-altered:{kind}"
         if name == 'hang':
             # name the last hostile frame that had been fed completely
             fed = sum(e.get('n', 0) for e in trace[:int(at or 0)] if e.get('ev') == 'feed')
@@ -832,6 +865,10 @@ def run(chk: Check, args):
         for i in range(60 if thorough else 6):
             scenarios.append(session_scenario(conc, fam, 60 if fam == 'server' else 24, preamble=i % 2 == 0))
             metas.append(dict(source='session'))
+    for fam in ('server', 'peer', 'dist'):
+        for sc in count_scenarios(conc, fam):
+            scenarios.append(sc)
+            metas.append(dict(source='count-at-end'))
     # big frames (beyond any plausible chunking threshold) between sentinels, in MSS-sized and odd segments
     combos = []
     for fam in ('server', 'peer', 'dist'):
@@ -917,7 +954,7 @@ def run(chk: Check, args):
                        meta_of=lambda tid: dict(meta=metas[tid - 1], scenario=scenarios[tid - 1]))
     chk.log(f'trace validation: {len(v.accepted)} accepted, {len(v.rejected)} rejected')
 
-    selftest(chk, traces)
+    selftest(chk, [traces[tid - 1] for tid in sorted(v.accepted)])       # corrupt only executions that were accepted
     chk.assumptions += [
         'asyncio.StreamReader.readexactly and the simulated transport deliver bytes in order (no kernel-level effects)',
         'a Sentinel is a message whose handlers are harmless: ParentInactivityTimeout (server), PeerPlaceInQueueReply '
@@ -937,19 +974,22 @@ def handler_scenario(conc: Concretiser, fam, classes, preamble):
     obf = fam == 'peer' and r.random() < 0.5
     frames = []
 
-    def add(body, k, sid, cat, cls):
+    def add(body, k, sid, cat, cls, **extra):
         w = L.wire(L.frame(body), obf, bytes(r.getrandbits(8) for _ in range(4)))
-        frames.append(dict(k=k, id=sid, cat=cat, cls=cls, obf=obf, hex=w.hex(), h=8 if obf else 4, b=len(body), a=len(body)))
+        frames.append(dict(k=k, id=sid, cat=cat, cls=cls, obf=obf, hex=w.hex(), h=8 if obf else 4, b=len(body), a=len(body),
+                           **extra))
 
-    sid = conc._next_sid()
-    add(sentinel(M, fam, sid).serialize()[4:], 'S', sid, 'sentinel', '')
+    def add_sentinel():
+        sid, pad, msg = conc.new_sentinel(fam)
+        add(msg.serialize()[4:], 'S', sid, 'sentinel', type(msg).__qualname__, pad=pad)
+
+    add_sentinel()
     for cls in classes:
         for _ in range(2):
             body, cat, name = conc.host[fam].valid(cls)
             add(body, 'H', 0, cat, name)
             conc.class_counts[name] = conc.class_counts.get(name, 0) + 1
-    sid = conc._next_sid()
-    add(sentinel(M, fam, sid).serialize()[4:], 'S', sid, 'sentinel', '')
+    add_sentinel()
     return dict(kind=fam, obf=obf, variant='accepted', preamble=preamble, raiser=False, frames=frames,
                 stimuli=[['feed', f['h'] + f['a']] for f in frames])
 
@@ -1010,13 +1050,17 @@ def large_scenario(conc: Concretiser, fam, size, how, seg, obf=False, variant='a
     M, r = conc.M, conc.rng
     frames = []
 
-    def add(body, k, sid, cat, cls):
+    def add(body, k, sid, cat, cls, **extra):
         w = L.wire(L.frame(body), obf, bytes(r.getrandbits(8) for _ in range(4)))
-        frames.append(dict(k=k, id=sid, cat=cat, cls=cls, obf=obf, hex=w.hex(), h=8 if obf else 4, b=len(body), a=len(body)))
+        frames.append(dict(k=k, id=sid, cat=cat, cls=cls, obf=obf, hex=w.hex(), h=8 if obf else 4, b=len(body), a=len(body),
+                           **extra))
+
+    def add_sentinel():
+        sid, pad, msg = conc.new_sentinel(fam)
+        add(msg.serialize()[4:], 'S', sid, 'sentinel', type(msg).__qualname__, pad=pad)
 
     def sent():
-        sid = conc._next_sid()
-        add(sentinel(M, fam, sid).serialize()[4:], 'S', sid, 'sentinel', '')
+        add_sentinel()
 
     sent()
     body, cat, name = large_body(conc, fam, size, how)
@@ -1040,6 +1084,35 @@ def large_scenario(conc: Concretiser, fam, size, how, seg, obf=False, variant='a
                 frames=frames, stimuli=stimuli)
 
 
+def count_scenarios(conc: Concretiser, fam, per=40):
+    """Every length / count field of every receivable class set to 0xFFFFFFFF with the frame ending
+    right there (parsing must terminate and reject), in batches between sentinels."""
+    r = conc.rng
+    bombs = conc.host[fam].count_bombs()
+    out = []
+    for start in range(0, len(bombs), per):
+        obf = fam == 'peer' and r.random() < 0.5
+        frames = []
+
+        def add(body, k, sid, cat, cls, **extra):
+            w = L.wire(L.frame(body), obf, bytes(r.getrandbits(8) for _ in range(4)))
+            frames.append(dict(k=k, id=sid, cat=cat, cls=cls, obf=obf, hex=w.hex(), h=8 if obf else 4, b=len(body),
+                               a=len(body), **extra))
+
+        def add_sentinel():
+            sid, pad, msg = conc.new_sentinel(fam)
+            add(msg.serialize()[4:], 'S', sid, 'sentinel', type(msg).__qualname__, pad=pad)
+
+        add_sentinel()
+        for body, cat, name in bombs[start:start + per]:
+            add(body, 'H', 0, cat, name)
+            conc.cat_counts[cat] = conc.cat_counts.get(cat, 0) + 1
+        add_sentinel()
+        out.append(dict(kind=fam, obf=obf, variant='accepted', preamble=False, raiser=False, logging=False,
+                        frames=frames, stimuli=[['feed', f['h'] + f['a']] for f in frames]))
+    return out
+
+
 def session_scenario(conc: Concretiser, fam, n, preamble=True):
     """A long valid conversation: n valid messages of random classes (state accumulates in the
     managers), a sentinel after every few, fed with random segmentation."""
@@ -1048,9 +1121,14 @@ def session_scenario(conc: Concretiser, fam, n, preamble=True):
     obf = fam == 'peer' and r.random() < 0.5
     frames = []
 
-    def add(body, k, sid, cat, cls):
+    def add(body, k, sid, cat, cls, **extra):
         w = L.wire(L.frame(body), obf, bytes(r.getrandbits(8) for _ in range(4)))
-        frames.append(dict(k=k, id=sid, cat=cat, cls=cls, obf=obf, hex=w.hex(), h=8 if obf else 4, b=len(body), a=len(body)))
+        frames.append(dict(k=k, id=sid, cat=cat, cls=cls, obf=obf, hex=w.hex(), h=8 if obf else 4, b=len(body), a=len(body),
+                           **extra))
+
+    def add_sentinel():
+        sid, pad, msg = conc.new_sentinel(fam)
+        add(msg.serialize()[4:], 'S', sid, 'sentinel', type(msg).__qualname__, pad=pad)
 
     for i in range(n):
         if r.random() < 0.15:
@@ -1060,8 +1138,7 @@ def session_scenario(conc: Concretiser, fam, n, preamble=True):
             conc.class_counts[name] = conc.class_counts.get(name, 0) + 1
         add(body, 'H', 0, cat, name)
         if i % 4 == 3 or i == n - 1:
-            sid = conc._next_sid()
-            add(sentinel(M, fam, sid).serialize()[4:], 'S', sid, 'sentinel', '')
+            add_sentinel()
     total = sum(f['h'] + f['a'] for f in frames)
     stimuli, pos = [], 0
     while pos < total:
@@ -1139,6 +1216,9 @@ def selftest(chk: Check, traces):
         b.insert(i, dict(ev='ostate', which='listen0', st='CLOSED'))
     pick(lambda tr, i, e: e['ev'] == 'quiet' and i > 1 and tr[0]['kind'] == 'accept', other)
     if not bad:
+        if not traces:
+            chk.cov['binding_selftest']['corrupted_traces_rejected'] = 'no accepted trace to corrupt'
+            return
         raise MachineryFailure('self-test could not build corrupted traces')
     cv = tlc.validate_traces(TRACE, 'Trace.cfg', bad, max_diag=0, timeout=600)
     chk.cov['binding_selftest']['corrupted_traces_rejected'] = f'{len(cv.rejected)}/{len(bad)}'
